@@ -16,6 +16,8 @@ ITEMS = [
          subst=[NODERIVE,
                 (r'Rc<HashMap<ObjKey, Obj>>', 'Rc<DictMap>', 'dict storage is opaque'),
                 (r'Rc<dyn Stream>', 'Rc<StreamBox>', 'stream object is opaque')]),
+    Item(id='ObjKey', kind='type', source=C, locator='struct ObjKey',
+         subst=[NODERIVE, (r'pub struct ObjKey\(Obj\);', 'pub struct ObjKey(pub Obj);', 'field made visible to the bundle\'s flat module')]),
     Item(id='Assoc', kind='type', source=C, locator='enum Assoc', subst=[NODERIVE]),
     Item(id='Precedence', kind='type', source=C, locator='struct Precedence', subst=[NODERIVE]),
     Item(id='Struct', kind='type', source=C, locator='struct Struct', subst=[NODERIVE]),
